@@ -1,6 +1,6 @@
 """C23 replay: run sessions printed by spec/ComptimeGlobals.tla on real generated modules.
 
-session = {"place": [mod of f1, ...], "bind": {mod: [user-bound names]},
+session = {"place": [mod of f1, ...], "bind": {mod: ["<name>=<kind>", ...]}  (kind: user | none | zero),
            "script": [{"call": [kind, g], "fault": kind}, ...],
            "steps": [{"entry": f, "outcome": .., "obs": [{"tag": [f, k], "g": {mod: {name: cls}}}], "after": {...}}]}
 """
@@ -45,8 +45,18 @@ def body_src(f: int, sc: dict) -> str:
     return "\n".join(L) + "\n"
 
 
+def bindings(sess: dict, mod: str) -> dict:
+    """name -> kind for the user's bindings in module `mod`."""
+    return dict(b.split("=", 1) for b in sess["bind"].get(mod, []))
+
+
+def binding_src(name: str, kind: str) -> str:
+    return {"user": USER_SRC[name], "none": f"{name} = None\n", "zero": f"{name} = 0\n"}[kind]
+
+
 def module_src(mod: str, sess: dict) -> str:
-    src = "".join(USER_SRC[n] for n in rt.NAMES if n in sess["bind"].get(mod, []))
+    b = bindings(sess, mod)
+    src = "".join(binding_src(n, b[n]) for n in rt.NAMES if n in b)
     src += "\n@guppy.declare\ndef d() -> None: ...\n\n"
     for i, m in enumerate(sess["place"], start=1):
         if m == mod:
@@ -97,8 +107,8 @@ def run_session(sess: dict) -> dict:
     try:
         for m in modnames:
             mods[m] = gp.load(module_src(m, sess), prelude=PRELUDE)
-            for n in sess["bind"][m]:
-                rt.SESSION["user"][m, n] = mods[m].__dict__[n]
+            for n, kind in bindings(sess, m).items():
+                rt.SESSION["user"][m, n] = (kind, mods[m].__dict__[n])
         for i, m in enumerate(sess["place"], start=1):
             rt.SESSION["fns"][i] = getattr(mods[m], f"f{i}")
         initial = snapshot(mods)
@@ -125,7 +135,7 @@ def run_session(sess: dict) -> dict:
 def compare(sess: dict, got: dict) -> list:
     """Mismatches between the spec's expectation and the observation."""
     bad = []
-    initg = {m: {n: ("user" if n in sess["bind"][m] else "absent") for n in rt.NAMES} for m in sess["bind"]}
+    initg = {m: {n: bindings(sess, m).get(n, "absent") for n in rt.NAMES} for m in sess["bind"]}
     if got["init_view"] != initg:
         bad.append({"step": -1, "what": "initial namespaces", "spec": initg, "code": got["init_view"]})
     for i, (e, o) in enumerate(zip(sess["steps"], got["steps"])):
